@@ -187,8 +187,495 @@ def query_term(case: dict, obs: dict) -> str:
     if not obs["eigh"]:
         return "true"
     n = case_n(case)
-    shape = case["shape"]
-    rows = [case["A"][i * shape[1]:(i + 1) * shape[1]] for i in range(shape[0])]
     enh = coq_bool(case["cfg"][0] == "eigen" and bool(case["cfg"][1]))
     Ain = obs["eigh"][-1][0].tolist()
-    return f"(mclose 0x1p-40 {n}%nat (eigen_query fo {n}%nat (rows {coq_rows(rows)}) {coq_float(case['eps'])} {enh}) (rows {coq_rows(Ain)}))"
+    return (f"(mclose 0x1p-40 {n}%nat (eigen_query fo {n}%nat (rows {coq_rows(case_rows(case))}) {coq_float(case['eps'])} {enh}) "
+            f"(rows {coq_rows(Ain)}))")
+
+
+def case_rows(case: dict):
+    shape = case["shape"]
+    return [case["A"][i * shape[1]:(i + 1) * shape[1]] for i in range(shape[0])]
+
+
+TOL_EIGEN = 1e-9
+TOL_ITER = 1e-6
+
+
+def agree_term(case: dict, obs: dict) -> str:
+    tol = TOL_EIGEN if (case["cfg"][0] in ("eigen", "unknown") or case["is_diag"] or case_n(case) == 1) else TOL_ITER
+    return f"agree {coq_float(tol)} {case_n(case)}%nat {model_term(case, obs)} {obs_term(case, obs)}"
+
+
+def eval_bool_lists(ck: Check, prefix: str, columns: list[list[str]], per_file: int) -> list[str]:
+    """columns[k][i] = Coq boolean term number k of case i.  Returns, per column, the string of T/F."""
+    ncase = len(columns[0]) if columns else 0
+    sources = {}
+    for fi, lo in enumerate(range(0, ncase, per_file)):
+        parts = [HEADER]
+        for k, col in enumerate(columns):
+            parts.append(f"Definition r{k} : list bool := [\n" + ";\n".join(col[lo:lo + per_file]) + "].\nEval vm_compute in show_bools r" + str(k) + ".\n")
+        sources[f"{prefix}_{fi:04d}"] = "\n".join(parts)
+    out = ck.eval_coq(sources) if sources else {}
+    res = []
+    for k in range(len(columns)):
+        res.append("".join(out[f"{prefix}_{fi:04d}"][k] for fi in range(len(sources))))
+        assert len(res[-1]) == ncase, (prefix, k, len(res[-1]), ncase)
+    return res
+
+
+# ------------------------------------------------------------------------------------------------
+# input generators (every random choice from ck.rng)
+
+
+def rand_orth(n: int, seed: int):
+    import torch
+    g = torch.Generator().manual_seed(seed)
+    Q, _ = torch.linalg.qr(torch.randn(n, n, dtype=torch.float64, generator=g))
+    return Q
+
+
+def spectrum(rng, n: int, kind: str, scale: float, cond: float) -> list[float]:
+    """Eigenvalues for a test matrix.  kinds: psd | rankdef | zero | indef | repeated."""
+    if kind == "zero":
+        return [0.0] * n
+    lc = math.log10(cond)
+    lam = [scale * 10 ** (-rng.random() * lc) for _ in range(n)]
+    lam[0] = scale
+    if n > 1:
+        lam[-1] = scale / cond
+    if kind == "repeated":
+        vals = lam[:max(1, min(3, n // 2))]
+        lam = [rng.choice(vals) for _ in range(n)]
+        lam[0] = scale
+    if kind in ("rankdef", "indef") and n > 1:
+        k = rng.randint(1, n - 1)
+        for i in range(k, n):
+            lam[i] = 0.0
+    if kind == "indef":
+        m = rng.randint(1, max(1, min(2, n - 1))) if n > 1 else 1
+        for i in range(m):
+            lam[n - 1 - i] = -scale * 10 ** rng.uniform(-9, -3)     # lambda_min in [-1e-3 * scale, 0)
+    rng.shuffle(lam)
+    return lam
+
+
+def make_sym(lam: list[float], seed: int, diagonal: bool = False):
+    import torch
+    n = len(lam)
+    if diagonal or n == 1:
+        return torch.diag(torch.tensor(lam, dtype=torch.float64))
+    Q = rand_orth(n, seed)
+    A = (Q * torch.tensor(lam, dtype=torch.float64)) @ Q.T
+    return (A + A.T) / 2
+
+
+ROOTS = [(1, 1), (2, 1), (3, 1), (4, 1), (8, 1), (3, 2), (4, 3), (5, 2), (2, 3), (8, 3)]
+
+
+def new_case(A, p, q, cfg, eps, is_diag=False, tag="") -> dict:
+    return {"shape": list(A.shape), "A": A.reshape(-1).tolist(), "p": p, "q": q, "cfg": tuple(cfg), "eps": float(eps),
+            "is_diag": bool(is_diag), "tag": tag}
+
+
+def case_brief(case: dict) -> dict:
+    return {"shape": case["shape"], "root": f"{case['p']}/{case['q']}", "cfg": list(case["cfg"]), "eps": case["eps"],
+            "is_diag": case["is_diag"], "kind": case.get("tag", "")}
+
+
+def gen_eigen_cases(rng, count: int, nmax: int = 12) -> list[dict]:
+    """Symmetric inputs for the eigen configuration: zero, rank-deficient, slightly indefinite, PSD, repeated spectra."""
+    cases = []
+    kinds = ["zero", "rankdef", "indef", "indef", "psd", "repeated"]
+    for k in range(count):
+        n = 1 + (k % nmax) if k < 2 * nmax else rng.randint(1, nmax)
+        kind = kinds[k % len(kinds)]
+        scale = 10 ** rng.uniform(-6, 6)
+        cond = 10 ** rng.uniform(0, 8)
+        lam = spectrum(rng, n, kind, scale, cond)
+        diagonal = rng.random() < 0.1
+        A = make_sym(lam, rng.randrange(1 << 40), diagonal=diagonal)
+        eps = (scale if kind != "zero" else 1.0) * 10 ** rng.uniform(-10, -1)
+        p, q = rng.choice(ROOTS)
+        enh = rng.random() < 0.5
+        cases.append(new_case(A, p, q, ("eigen", enh), eps, False, kind + ("-diag" if diagonal else "")))
+    return cases
+
+
+def gen_guard_cases(rng) -> list[dict]:
+    """numel > 1 and not a square 2-D matrix: every configuration and flag must raise ValueError; root <= 0."""
+    import torch
+    cases = []
+    cfgs = [("eigen", False), ("eigen", True), ("newton", 10, 1e-6), ("ho", 0.0, 10, 1e-8, 3), ("unknown",)]
+    shapes = [(2,), (3,), (7,), (2, 3), (3, 2), (1, 2), (2, 1), (4, 1), (1, 5), (2, 2, 2), (1, 2, 2), (2, 1, 2), (1, 1, 2), (2, 3, 4), (3, 3, 1), (1, 3, 3), (2, 2, 1, 1)]
+    for sh in shapes:
+        for cfg in cfgs:
+            A = torch.tensor([rng.uniform(0.5, 2.0) for _ in range(math.prod(sh))], dtype=torch.float64).reshape(sh)
+            p, q = rng.choice(ROOTS + [(0, 1), (-2, 1)])
+            cases.append(new_case(A, p, q, cfg, 0.1, rng.random() < 0.3, "nonsquare"))
+    # root <= 0 on square inputs: diagonal flag and eigen configurations -> ValueError
+    for p, q in [(0, 1), (-1, 1), (-2, 1), (-3, 2), (-1, 3)]:
+        for n in (2, 3, 5):
+            A = make_sym([1.0 + i for i in range(n)], rng.randrange(1 << 40))
+            for cfg, isd in [(("eigen", False), False), (("eigen", True), False), (("eigen", False), True), (("newton", 5, 1e-6), True),
+                             (("ho", 0.0, 5, 1e-8, 3), True), (("unknown",), True)]:
+                cases.append(new_case(A, p, q, cfg, 0.1, isd, "root<=0"))
+    # numel == 1: any shape, any configuration, no root validation (root 0 -> ZeroDivisionError)
+    for sh in [(), (1,), (1, 1), (1, 1, 1)]:
+        for cfg in cfgs:
+            A = torch.tensor([rng.uniform(0.5, 2.0)], dtype=torch.float64).reshape(sh)
+            p, q = rng.choice(ROOTS + [(0, 1), (-2, 1)])
+            cases.append(new_case(A, p, q, cfg, 0.1, rng.random() < 0.3, "numel1"))
+    return cases
+
+
+# ------------------------------------------------------------------------------------------------
+# C11 checker call on the implementation's output
+
+
+def c11_check_term(case: dict, obs: dict) -> str | None:
+    """C11_checkb on the implementation's X for eigen-configuration cases with eps > 0, root > 0, n > 1."""
+    import torch
+    if obs["kind"] != "ok" or case["cfg"][0] != "eigen" or case["is_diag"] or case["p"] <= 0 or case["eps"] <= 0:
+        return None
+    n = case_n(case)
+    X = obs["X"].reshape(n, n)
+    A = torch.tensor(case["A"], dtype=torch.float64).reshape(n, n)
+    if n == 1:           # numel == 1 fast path: no eigh call; the 1x1 decomposition is (a, [[1]])
+        L, Q = A.reshape(1).clone(), torch.ones(1, 1, dtype=torch.float64)
+        if case["cfg"][1]:
+            L = L + case["eps"]
+    elif not obs["eigh"]:
+        return None
+    else:
+        _, L, Q = obs["eigh"][-1]
+    lam_min, lam_max = float(L.min()), float(L.max())
+    if case["cfg"][1]:   # enhance_stability: L are the eigenvalues of A + eps I
+        lam_min, lam_max = lam_min - case["eps"], lam_max - case["eps"]
+    s = -min(lam_min, 0.0)
+    cond = (lam_max + s + case["eps"]) / case["eps"]
+    u = U["float64"]
+    slack = max(1e-9, 100 * n * u * cond)
+    e = float(torch.as_tensor(-1.0 / Fraction(case["p"], case["q"])))
+    cap = case["eps"] ** e
+    xs = float(X.abs().max()) if bool(torch.isfinite(X).all()) else 1.0
+    tol_s = 1e-9 * max(xs, 1e-300)
+    tol_c = slack * n * xs * max(float(A.abs().max()), 1e-300)
+    bound = cap * (1 + slack)
+    return (f"(C11_checkb fo {n}%nat (rows {coq_rows(A.tolist())}) (rows {coq_rows(X.tolist())}) (rows {coq_rows(Q.tolist())}) "
+            f"{coq_float(tol_s)} {coq_float(tol_c)} {coq_float(bound)})")
+
+
+# ------------------------------------------------------------------------------------------------
+# measured clauses (NOT theorems): float32 / float64 behaviour of the real routine, n up to 64
+
+BUDGET = 64.0
+
+
+def finding_signature(shape, A_flat) -> str | None:
+    """Known-finding classifier, computed from the INPUT only."""
+    if math.prod(shape) == 1 and A_flat[0] < 0:
+        return "C11:numel1-fastpath-no-eigenvalue-shift"
+    return None
+
+
+def measure_one(A, p: int, q: int, eps: float, enh: bool, seed: int, dtype: str) -> dict:
+    """Finiteness, symmetry, PD, eigenvalue cap, commutation, equivariance of the real eigen path on A (in `dtype`).
+    Residuals are evaluated in float64 on the returned matrix and normalised by n*u*cond(A + s + eps)."""
+    import torch
+    import matrix_functions as mf
+    from matrix_functions_types import EigenConfig
+
+    tdt = getattr(torch, dtype)
+    u = U[dtype]
+    n = A.shape[0]
+    Ad = A.to(tdt)
+    Ad = (Ad + Ad.T) / 2
+    root = Fraction(p, q)
+    cfg = EigenConfig(enhance_stability=enh)
+    with quiet():
+        X = mf.matrix_inverse_root(Ad, root, cfg, epsilon=eps)
+    res: dict = {"finite": bool(torch.isfinite(X).all()), "dtype_ok": X.dtype == tdt}
+    if not res["finite"]:
+        return res
+    X64, A64 = X.double(), Ad.double()
+    lam = torch.linalg.eigvalsh(A64)
+    s = -min(float(lam[0]), 0.0)
+    cond = (float(lam[-1]) + s + eps) / eps
+    nuc = n * u * cond
+    e = float(torch.as_tensor(-1.0 / root))
+    cap = eps ** e
+    xn = float(X64.abs().max())
+    res["cond"] = cond
+    res["nuc"] = nuc
+    res["nuc_X"] = n * u * max(cond, cond ** (q / p))      # cond(X) = cond^(1/r): decides whether PD can survive rounding
+    res["sym_over_nu"] = float((X64 - X64.T).abs().max()) / xn / (n * u)
+    ev = torch.linalg.eigvalsh((X64 + X64.T) / 2)
+    res["lambda_min_X"] = float(ev[0])
+    res["pd"] = float(ev[0]) > 0
+    res["pd_c"] = max(0.0, -float(ev[0])) / (nuc * float(ev[-1]))
+    res["cap_c"] = max(0.0, float(ev[-1]) / cap - 1.0) / nuc
+    an = float(A64.norm())
+    res["comm_c"] = (float((X64 @ A64 - A64 @ X64).norm()) / (float(X64.norm()) * an) / nuc) if an > 0 else 0.0
+    P = rand_orth(n, seed)
+    B64 = P @ A64 @ P.T
+    B = ((B64 + B64.T) / 2).to(tdt)
+    with quiet():
+        XB = mf.matrix_inverse_root(B, root, cfg, epsilon=eps)
+    res["equiv_finite"] = bool(torch.isfinite(XB).all())
+    res["equiv_c"] = float((XB.double() - P @ X64 @ P.T).norm()) / float(X64.norm()) / nuc if res["equiv_finite"] else float("inf")
+    return res
+
+
+def measure_oracle(A) -> dict:
+    """What torch.linalg.eigh actually delivers for A (float64): the contract assumed by the theorems."""
+    import torch
+    L, Q = torch.linalg.eigh(A)
+    n = A.shape[0]
+    I = torch.eye(n, dtype=A.dtype)
+    an = max(float(A.abs().max()), 1e-300)
+    return {"QtQ": float((Q.T @ Q - I).abs().max()), "QQt": float((Q @ Q.T - I).abs().max()),
+            "recon": float(((Q * L) @ Q.T - A).abs().max()) / an, "ascending": bool((L[1:] >= L[:-1]).all())}
+
+
+def retry_check() -> list[str]:
+    """double-precision retry of matrix_eigenvalue_decomposition: with eigh failing on non-float64 input the routine must
+    still return (retry in double), and must re-raise when retry_double_precision is False."""
+    import torch
+    import matrix_functions as mf
+    from matrix_functions_types import EigenConfig
+
+    problems = []
+    real = torch.linalg.eigh
+    calls = []
+
+    def flaky(A, *a, **kw):
+        calls.append(A.dtype)
+        if A.dtype != torch.float64:
+            raise RuntimeError("verif: injected eigh failure in low precision")
+        return real(A, *a, **kw)
+
+    A = make_sym([1.0, 0.5, 0.0, -1e-6], 7).to(torch.float32)
+    A = (A + A.T) / 2
+    with quiet(), mock.patch.object(mf.torch.linalg, "eigh", flaky):
+        try:
+            X = mf.matrix_inverse_root(A, Fraction(2), EigenConfig(), epsilon=1e-4)
+            ref = mf.matrix_inverse_root(A.double(), Fraction(2), EigenConfig(), epsilon=1e-4)
+            if not bool(torch.isfinite(X).all()) or float((X.double() - ref).abs().max()) > 1e-4 * float(ref.abs().max()):
+                problems.append("retry in double precision returned a wrong or non-finite matrix")
+            if calls[:2] != [torch.float32, torch.float64]:
+                problems.append(f"eigh call sequence {calls[:2]} is not (float32, float64)")
+        except Exception as ex:  # noqa
+            problems.append(f"eigh failure in float32 not retried in double precision: {type(ex).__name__}")
+        try:
+            mf.matrix_inverse_root(A, Fraction(2), EigenConfig(retry_double_precision=False), epsilon=1e-4)
+            problems.append("retry_double_precision=False did not propagate the eigh failure")
+        except RuntimeError:
+            pass
+        except Exception as ex:  # noqa
+            problems.append(f"retry_double_precision=False raised {type(ex).__name__} instead of the eigh error")
+    return problems
+
+
+def gen_measure_inputs(rng, thorough: bool):
+    sizes = [1, 2, 3, 5, 8, 13, 21, 32, 48, 64]
+    reps = 6 if thorough else 1
+    kinds = ["zero", "rankdef", "indef", "psd", "indef", "repeated"]
+    out = []
+    k = 0
+    for dtype in ("float32", "float64"):
+        u = U[dtype]
+        for n in sizes:
+            for kind in kinds:
+                for _ in range(reps):
+                    scale = 10 ** rng.uniform(-6, 6)
+                    cond = 10 ** rng.uniform(0, math.log10(0.1 / u) - 1)
+                    lam = spectrum(rng, n, kind, scale, cond)
+                    A = make_sym(lam, rng.randrange(1 << 40))
+                    base = scale if kind != "zero" else 1.0
+                    eps = base * 10 ** rng.uniform(math.log10(16 * u), -1)     # not below the dtype resolution of the scale
+                    p, q = ROOTS[k % len(ROOTS)]
+                    k += 1
+                    out.append((A, p, q, eps, rng.random() < 0.5, rng.randrange(1 << 40), dtype, kind))
+    return out
+
+
+# ------------------------------------------------------------------------------------------------
+
+
+def hist(xs) -> dict:
+    h: dict = {}
+    for x in xs:
+        h[str(x)] = h.get(str(x), 0) + 1
+    return dict(sorted(h.items()))
+
+
+def run(ck: Check) -> None:
+    import torch
+    common.assert_repo_imports()
+    torch.set_num_threads(1)
+    ck.coq_props()
+    thorough = ck.tier == "thorough"
+
+    # ---- 1. the tie: model (binary64, recorded eigh answer) vs implementation ----------------------
+    cases = gen_eigen_cases(ck.rng, 2400 if thorough else 150) + gen_guard_cases(ck.rng)
+    observations = [observe(c) for c in cases]
+    agree_col = [agree_term(c, o) for c, o in zip(cases, observations)]
+    query_col = [query_term(c, o) for c, o in zip(cases, observations)]
+    chk_terms = [c11_check_term(c, o) for c, o in zip(cases, observations)]
+    chk_col = [t if t is not None else "true" for t in chk_terms]
+    agree_s, query_s, chk_s = eval_bool_lists(ck, "c11", [agree_col, query_col, chk_col], per_file=24)
+    bad = [i for i in range(len(cases)) if agree_s[i] != "T" or query_s[i] != "T"]
+    chk_fail = [i for i in range(len(cases)) if chk_terms[i] is not None and chk_s[i] != "T"]
+    chk_fail_all = list(chk_fail)
+    # shape guard / root validation are exact statements: the implementation's outcome class must be ValueError
+    guard_fail = [i for i, (c, o) in enumerate(zip(cases, observations))
+                  if c.get("tag") in ("nonsquare", "root<=0") and not (o["kind"] == "raise" and o.get("exc") == "ValueError")]
+
+    def rep(i):
+        c, o = cases[i], observations[i]
+        d = {"case": {k: c[k] for k in ("shape", "A", "p", "q", "cfg", "eps", "is_diag", "tag")},
+             "impl_outcome": o["kind"] + (":" + o["exc"] if o["kind"] == "raise" else ""),
+             "impl_X": o["X"].tolist() if o["kind"] == "ok" else None}
+        return d
+
+    if guard_fail:
+        i = min(guard_fail, key=lambda i: math.prod(cases[i]["shape"]))
+        ck.report(None, f"input of shape {cases[i]['shape']} root {cases[i]['p']}/{cases[i]['q']} cfg {cases[i]['cfg']} is_diagonal={cases[i]['is_diag']} "
+                        f"not rejected with ValueError (got {observations[i]['kind']} {observations[i].get('exc', '')})",
+                  {"kind": "property-fails", "predicate": "shape_guard / nonpositive_root_rejected", "n_failing": len(guard_fail), **rep(i)})
+    if chk_fail:
+        known = [i for i in chk_fail if finding_signature(cases[i]["shape"], cases[i]["A"])]
+        for i in known[:1]:
+            ck.report(finding_signature(cases[i]["shape"], cases[i]["A"]),
+                      f"1x1 input with a negative entry ({cases[i]['A'][0]:.3e}, eps {cases[i]['eps']:.3e}): the numel==1 fast path skips the -min(lambda_min,0) shift, "
+                      f"result {observations[i]['X'].reshape(-1).tolist()} exceeds eps^e or is not finite",
+                      {"kind": "property-fails", "predicate": "C11_checkb", "n_failing": len(known), **rep(i)})
+        chk_fail = [i for i in chk_fail if i not in known]
+    if chk_fail:
+        i = min(chk_fail, key=lambda i: (case_n(cases[i]), i))
+        ck.report(None, f"eigen path output violates C11 (C11_checkb false: finite / symmetric / positive Rayleigh quotients <= eps^e / commutes) on a "
+                        f"{case_n(cases[i])}x{case_n(cases[i])} {cases[i]['tag']} input, root {cases[i]['p']}/{cases[i]['q']}, cfg {cases[i]['cfg']}",
+                  {"kind": "property-fails", "predicate": "C11_checkb", "n_failing": len(chk_fail), "model_agrees": i not in bad, **rep(i)})
+    elif bad and not guard_fail:
+        i = min(bad, key=lambda i: (case_n(cases[i]), i))
+        ck.report(None, f"model/implementation correspondence broken ({len(bad)} cases; first: shape {cases[i]['shape']} root {cases[i]['p']}/{cases[i]['q']} cfg {cases[i]['cfg']} "
+                        f"is_diagonal={cases[i]['is_diag']}, impl {observations[i]['kind']} {observations[i].get('exc', '')}) but the implementation's outputs still pass C11_checkb",
+                  {"kind": "correspondence", "broken": "MFAgree.agree / eigen_query (model matrix_inverse_root vs implementation)", "n_disagree": len(bad),
+                   "agree": agree_s[i], "query": query_s[i], **rep(i),
+                   "theorems_not_transferring": ["C11_eigen_root_sym", "C11_eigen_root_pd", "C11_eigen_root_eig_le", "C11_eigen_root_commutes",
+                                                 "C11_eigen_root_equivariant", "C11_shape_guard", "C11_nonpositive_root_rejected"]}, no_failing_input=True)
+
+    # ---- 2. measured clauses (float32 / float64, n <= 64) -------------------------------------------
+    minputs = gen_measure_inputs(ck.rng, thorough)
+    worst = {"sym_over_nu": 0.0, "pd_c": 0.0, "cap_c": 0.0, "comm_c": 0.0, "equiv_c": 0.0}
+    nonfinite = 0
+    pd_strict_total = pd_strict_fail = 0
+    meas_viol = None
+    sig_seen = {finding_signature(cases[i]["shape"], cases[i]["A"]) for i in chk_fail_all}
+    for (A, p, q, eps, enh, seed, dtype, kind) in minputs:
+        r = measure_one(A, p, q, eps, enh, seed, dtype)
+        what = None
+        if not r["finite"] or not r.get("equiv_finite", True):
+            nonfinite += 1
+            what = "non-finite inverse root"
+        else:
+            for k in worst:
+                worst[k] = max(worst[k], r[k])
+            if r["nuc_X"] <= 1e-2:
+                pd_strict_total += 1
+                if not r["pd"]:
+                    pd_strict_fail += 1
+                    what = f"inverse root not positive definite (lambda_min = {r['lambda_min_X']:.3e}) although n*u*cond(X) = {r['nuc_X']:.2e}"
+            for k in ("pd_c", "cap_c", "comm_c", "equiv_c"):
+                if r[k] > BUDGET and what is None:
+                    what = f"measured {k} = {r[k]:.3g} exceeds the budget {BUDGET} (normalised by n*u*cond = {r['nuc']:.2e})"
+            if r["sym_over_nu"] > BUDGET and what is None:
+                what = f"asymmetry / (n*u) = {r['sym_over_nu']:.3g} exceeds the budget {BUDGET}"
+        if what and meas_viol is None:
+            sig = finding_signature(list(A.shape), A.reshape(-1).tolist())
+            if sig:
+                if sig in sig_seen:
+                    continue
+                sig_seen.add(sig)
+                ck.report(sig, f"1x1 input with a negative entry: {what}", {"kind": "measured-clause", "dtype": dtype, "A": A.tolist(), "p": p, "q": q, "eps": eps,
+                                                                            "enhance_stability": enh, "orth_seed": seed})
+                continue
+            meas_viol = (what, {"kind": "measured-clause", "dtype": dtype, "matrix_kind": kind, "A": A.tolist(), "p": p, "q": q, "eps": eps, "enhance_stability": enh,
+                                "orth_seed": seed, "measured": {k: v for k, v in r.items()}})
+    if meas_viol:
+        ck.report(None, f"measured C11 clause fails on the real routine: {meas_viol[0]}", meas_viol[1])
+    oracle = {"QtQ": 0.0, "QQt": 0.0, "recon": 0.0, "ascending": True}
+    for c, o in zip(cases, observations):
+        if o["eigh"]:
+            Ain, L, Q = o["eigh"][-1]
+            n = Ain.shape[0]
+            I = torch.eye(n, dtype=Q.dtype)
+            oracle["QtQ"] = max(oracle["QtQ"], float((Q.T @ Q - I).abs().max()))
+            oracle["QQt"] = max(oracle["QQt"], float((Q @ Q.T - I).abs().max()))
+            oracle["recon"] = max(oracle["recon"], float(((Q * L) @ Q.T - Ain).abs().max()) / max(float(Ain.abs().max()), 1e-300))
+            oracle["ascending"] = oracle["ascending"] and bool((L[1:] >= L[:-1]).all())
+    if oracle["QtQ"] > 1e-10 or oracle["QQt"] > 1e-10 or oracle["recon"] > 1e-10:
+        ck.report(None, f"torch.linalg.eigh does not meet the contract assumed by the theorems on a generated input: {oracle}",
+                  {"kind": "oracle-contract", "measured": oracle}, no_failing_input=True)
+    retry_problems = retry_check()
+    for pr in retry_problems:
+        ck.report(None, "double-precision retry of matrix_eigenvalue_decomposition: " + pr, {"kind": "retry", "problem": pr})
+
+    # ---- evidence -----------------------------------------------------------------------------------
+    eig_cases = [c for c in cases if c["tag"] not in ("nonsquare", "root<=0", "numel1")]
+    nontriv = {(tuple(c["shape"]), c["p"], c["q"], c["cfg"], c["tag"]) for c, o in zip(cases, observations) if case_n(c) >= 2 and o["kind"] == "ok"}
+    mid = len(eig_cases) // 2
+    ck.coverage.update({
+        "evaluations": len(cases) + len(minputs) + 2,
+        "distinct_nontrivial": len(nontriv),
+        "rule": "tie: model (binary64) fed with the recorded eigh answer vs real matrix_inverse_root, normwise tol 1e-9, exceptions by class, eigh query compared; "
+                "non-trivial = distinct (shape, root, config, matrix kind) with n >= 2 on which the implementation returned a matrix",
+        "exhaustive": False,
+        "samples": [case_brief(eig_cases[0]), case_brief(eig_cases[mid]), case_brief(cases[-1])],
+        "distribution": {"n": hist(case_n(c) for c in eig_cases), "matrix_kind": hist(c["tag"] for c in cases), "root": hist(f"{c['p']}/{c['q']}" for c in cases),
+                         "config": hist(c["cfg"][0] + (":stab" if c["cfg"][0] == "eigen" and c["cfg"][1] else "") for c in cases),
+                         "impl_outcome": hist(o["kind"] + (":" + o["exc"] if o["kind"] == "raise" else "") for o in observations),
+                         "shapes_rejected": hist(str(tuple(c["shape"])) for c in cases if c["tag"] == "nonsquare")},
+        "disagreements": len(bad),
+        "checker_evaluated_on": sum(1 for t in chk_terms if t is not None),
+        "checker_failures": len(chk_fail),
+        "MEASURED_not_proved": {
+            "what": "behaviour of the real routine in float32 and float64 (finiteness, symmetry, positive definiteness, eigenvalue cap eps^e, commutation, "
+                    "orthogonal equivariance), residuals normalised by n*u*cond(A + s + eps); budget " + str(BUDGET),
+            "inputs": len(minputs), "sizes": "1..64", "dtypes": ["float32", "float64"],
+            "kinds": hist(m[7] for m in minputs),
+            "non_finite": nonfinite,
+            "positive_definite_when_n_u_condX_le_1e-2": f"{pd_strict_total - pd_strict_fail}/{pd_strict_total}",
+            "worst_constants": {k: float(f"{v:.4g}") for k, v in worst.items()},
+            "eigh_contract_on_tie_inputs_float64": {k: (float(f"{v:.3g}") if not isinstance(v, bool) else v) for k, v in oracle.items()},
+            "double_precision_retry": "ok" if not retry_problems else retry_problems,
+        },
+    })
+    ck.assumptions += [
+        "torch.linalg.eigh returns (L, Q) with A = Q diag(L) Q^T, Q^T Q = Q Q^T = I (Section hypothesis eigh_contract; residuals measured in this run, see MEASURED_not_proved)",
+        "torch.pow on positive bases is the real power function (fpow of the real instance is Rpower)",
+        "finiteness / float32-float64 residuals are measured, not proved",
+    ]
+
+
+def replay(obj) -> bool:
+    import torch
+    common.assert_repo_imports()
+    if obj.get("kind") == "measured-clause":
+        A = torch.tensor(obj["A"], dtype=torch.float64)
+        r = measure_one(A, obj["p"], obj["q"], obj["eps"], obj["enhance_stability"], obj["orth_seed"], obj["dtype"])
+        print("measured now:", r)
+        print("recorded    :", obj.get("measured"))
+        return True
+    if "case" in obj:
+        c = dict(obj["case"])
+        c["cfg"] = tuple(c["cfg"])
+        o = observe(c)
+        print("implementation outcome:", o["kind"], o.get("exc", ""), o.get("msg", ""))
+        if o["kind"] == "ok":
+            print(o["X"])
+        print("recorded outcome:", obj.get("impl_outcome"))
+        return True
+    print(obj)
+    return True
